@@ -521,7 +521,11 @@ class CompositeFrontend(ConstrainedFrontend):
         if len(combined_noncommons):
             _, merged_noncommon = combined_noncommons[0].merge(combined_noncommons[1:], merge_conditions)
 
-            if any(v in merged._solvers for v in merged_noncommon.variables):
+            if len(merged_noncommon.variables) == 0:
+                # there is no variable to file this child under, only its truth value matters
+                if not merged_noncommon.satisfiable():
+                    merged._unsat = True
+            elif any(v in merged._solvers for v in merged_noncommon.variables):
                 # it mentions variables of a shared child (e.g. through a merge condition): join it with that child
                 # instead of replacing the child's entry for those variables
                 merged.add(merged_noncommon.constraints)
@@ -530,6 +534,8 @@ class CompositeFrontend(ConstrainedFrontend):
                 merged._store_child(merged_noncommon)
 
         merged.constraints = list(itertools.chain.from_iterable(a.constraints for a in merged._solver_list))
+        if merged._unsat:
+            merged.constraints.append(false())
         return True, merged
 
     def split(self):
